@@ -41,8 +41,54 @@ def add_pause_constructs(rng, case):
     return changed
 
 
+def orphan_case(seed, rng):
+    """A sub-workflow that outlives its parent task: the task is failed by
+    its timeout (the error is handled), the sub-workflow goes on, and the
+    root is paused while it still runs."""
+    to = rng.choice([2, 3])
+    sub = {'name': 'sub1', 'short': 'sub1', 'type': 'direct', 'lang': 'yaql',
+           'path_input': True, 'input': [{'x': 1}],
+           'tasks': [{'name': 'c0', 'body': {'kind': 'sync'},
+                      'on_success': [{'to': 'c1'}]},
+                     {'name': 'c1', 'body': {'kind': 'sync'}}]}
+    main = {'name': 'main', 'short': 'main', 'type': 'direct',
+            'lang': 'yaql', 'path_input': False, 'input': [{'x': 1}],
+            'tasks': [{'name': 't0', 'body': {'kind': 'wf', 'wf': 'sub1',
+                                              'input': {}},
+                       'timeout': to, 'on_error': [{'to': 't1'}]},
+                      {'name': 't1', 'body': {'kind': 'async'}}]}
+    if rng.random() < 0.5:
+        main['tasks'].append({'name': 't2', 'body': {'kind': 'sync'}})
+    prog = {'workflows': [main, sub], 'workbook': None}
+    case = runner.default_case()
+    case['seed'] = seed
+    case['prog'] = prog
+    case['feats'] = ['subwf', 'timeout']
+    case['defs'] = gen.render_program(prog)
+    case['starts'] = [{'wf': 'main', 'input': {'x': 1}, 'params': {}}]
+    case['outcome_seed'] = seed
+    case['p_err'] = 0.0
+    long_ = rng.choice([8, 12, 20])
+    case['body_delays'] = {'main.t0.c0': long_}
+    case['async_delays'] = {'main.t1': long_ + rng.choice([0, 5, 30])}
+    progcase.swarm_config(rng, case)
+    case['config']['subwf_via_rpc'] = False
+    t_pause = to + 1 + rng.random() * (long_ - to - 2)
+    case['ops'] = [{'op': 'pause', 'target': 'root',
+                    'at_time': round(t_pause, 2)},
+                   {'op': 'resume', 'target': 'root',
+                    'at_time': round(t_pause + rng.choice([1, 4, 15]), 2)}]
+    case['auto_resume'] = 8
+    case['base_ops'] = []
+    case['settle'] = 30
+    case['kind'] = 'orphan_subwf'
+    return case
+
+
 def make_case(seed, tier):
     rng = random.Random(seed)
+    if rng.random() < 0.07:
+        return orphan_case(seed, rng)
     for attempt in range(30):
         case, rng2 = progcase.program_case(
             seed * 41 + attempt, FEATS, max_tasks=rng.choice([3, 4, 5, 6]),
@@ -183,6 +229,22 @@ def evaluate(case, res):
                             lab.any(id_), step, bad), sig))
     if out:
         return out
+    if case.get('kind') == 'orphan_subwf':
+        # timers make the final record time-dependent: online oracles, and
+        # "after resume the run continues": it is not left PAUSED for good
+        # with every resume request refused
+        stuck = [lab.any(w['id']) for w in res.snap['wf'].values()
+                 if w['state'] == 'PAUSED']
+        refused = [o for o in res.ops_log if o['op']['op'] == 'resume' and
+                   o['result'] and o['result'][0] == 'http']
+        if stuck and refused:
+            out.append(('C10.differs_from_unpaused',
+                        'executions %s are still PAUSED at the end, %d '
+                        'resume requests were refused: %s' % (
+                            stuck, len(refused),
+                            str(refused[0]['result'])[:200]),
+                        sig + ' orphan_subwf resume_rolled_back'))
+        return out
     # final: same record as the undisturbed run / the reference
     rr, rrec = progcase.reference(case)
     res.extra['ref_exact'] = rr.exact and not rr.racy_tasks
@@ -277,6 +339,7 @@ def probes(case, res):
         elif r[0] == 'ok':
             p['resume_ok'] += 1
     p['ref_exact'] = int(bool(res.extra.get('ref_exact')))
+    p['orphan_subwf'] = int(case.get('kind') == 'orphan_subwf')
     p['backlog_used'] = int(any(
         e.table == trace.WF and e.committed and
         'backlog_commands' in (e.vals.get('runtime_context') or {})
